@@ -12,7 +12,7 @@ import tempfile
 from concurrent.futures import ThreadPoolExecutor
 from pathlib import Path
 
-SEED = Path("/tmp/seed")
+SEED = Path(os.environ.get("SEED_ROOT", "/tmp/seed"))
 OUT = Path("/verif/seeded")
 PY = "/venv/bin/python"
 
@@ -87,7 +87,7 @@ def main():
         status = "CONFIRMED" if r["ok"] else "REJECTED "
         det = "own:" + ("exit%d" % cb[own]["exit"] if own in cb else "MISS") + " others:" + ",".join(k for k in cb if k != own)
         print(status, r["id"], det, r.get("error", ""), "" if r["ok"] else {k: r.get(k) for k in ("clean_demo_rc", "mutant_demo_rc", "tests_ok")})
-    json.dump(results, open("/tmp/seed/results.json", "w"), indent=1)
+    json.dump(results, open(SEED / "results.json", "w"), indent=1)
 
 
 if __name__ == "__main__":
